@@ -162,7 +162,26 @@ def run_extractor():
     p = subprocess.run(["rustfmt", "--edition", "2021", "--config", "max_width=140", out_rs], capture_output=True, text=True)
     if p.returncode != 0:
         raise Undecided("rustfmt failed on extracted text:\n" + p.stderr[:2000])
-    return out_rs, json.load(open(meta))
+    m = json.load(open(meta))
+    m["anchors"]["i2osp_instantiations"] = i2osp_instantiations()
+    return out_rs, m
+
+
+def i2osp_instantiations():
+    """every length-prefix width the crate instantiates `i2osp` / `Input` with (the Kani harnesses prove `i2osp` for exactly these);
+    `L1` / `L` are the generic parameters forwarded inside serialization/mod.rs itself"""
+    found = set()
+    for f in repo_sources():
+        t = open(f).read()
+        t = re.sub(r"//[^\n]*", "", t)
+        cut = t.find("#[cfg(test)]\nmod ")
+        if cut >= 0:
+            t = t[:cut]
+        for mm in re.finditer(r"\bInput\s*(?:::)?\s*<\s*(?:'\w+\s*,\s*)?([A-Za-z_][\w:]*)", t):
+            found.add(mm.group(1).rstrip(":"))
+        for mm in re.finditer(r"\bi2osp\s*::\s*<\s*([A-Za-z_][\w:]*)", t):
+            found.add(mm.group(1).rstrip(":"))
+    return sorted(found)
 
 
 def check_anchors(meta):
@@ -208,6 +227,7 @@ class Assembled:
         self.contracted = []     # fn keys with a contract
         self.uncontracted = []   # fn keys without
         self.external = []       # fn keys kept external by contract (assumed)
+        self.external_reason = {}
         self.clauses = {}        # (fnkey,label) -> text
 
     def add(self, text):
@@ -285,6 +305,9 @@ def assemble(vacuity=False, only_files=None, extra_theorems=True, extracted=None
         ob = text.rfind("{", 0, m)
         head, body_rest = text[:ob], text[m + len(marker):]
         start_line = A.lineno()
+        if c is not None and c.external and key in A.refused:
+            # body outside the rules AND the contract file says so: assumed contract, discharged elsewhere (stated in the .vc file)
+            A.external_reason[key] = A.refused.pop(key)
         is_refused = key in A.refused
         if is_refused and dup:
             return
@@ -299,7 +322,7 @@ def assemble(vacuity=False, only_files=None, extra_theorems=True, extracted=None
             used_fn_contracts.add(key)
             if c.external:
                 A.external.append(key)
-                A.add("#[verifier::external_body]")
+                A.add("#[verifier::external_body] /*DECLARED assume_external in the contract file: contract assumed by Verus, discharged elsewhere (listed in the evidence)*/")
             else:
                 A.contracted.append(key)
         else:
@@ -474,9 +497,19 @@ def assemble(vacuity=False, only_files=None, extra_theorems=True, extracted=None
                 if hdr_text.rstrip().endswith("{}"):
                     continue
                 # impl_extra
-                mh = re.match(r"^impl(<.*?>)?\s*(.*?)\s*\{$", re.sub(r"\s+", " ", hdr_text).strip())
+                hn = re.sub(r"\s+", " ", hdr_text).strip()
+                mh = None
+                if hn.startswith("impl") and hn.endswith("{"):
+                    rest = hn[4:-1].strip()
+                    if rest.startswith("<"):      # skip the (possibly nested) generic parameter list
+                        d = 0
+                        for q, ch in enumerate(rest):
+                            d += ch == "<"; d -= ch == ">"
+                            if d == 0:
+                                rest = rest[q + 1:].strip(); break
+                    mh = rest
                 if mh:
-                    k2 = mh.group(2).replace(" ", "")
+                    k2 = mh.replace(" ", "")
                     if k2 in impl_extra:
                         A.add(impl_extra[k2].rstrip("\n"))
                         impl_extra.pop(k2)
@@ -748,8 +781,8 @@ def scan_assumptions(A):
     for m in pat.finditer(rest):
         ln = text[:a].count("\n") + rest[:m.start()].count("\n") + 1
         eol = rest.find("\n", m.start())
-        if "/*R12*/" in rest[m.start():eol] or "/*REFUSED" in rest[m.start():eol]:
-            continue   # generated field-wise Clone impls (rule R12) / refused bodies: reported separately
+        if "/*R12*/" in rest[m.start():eol] or "/*REFUSED" in rest[m.start():eol] or "/*DECLARED" in rest[m.start():eol]:
+            continue   # generated field-wise Clone impls (rule R12) / refused bodies / `assume_external` of a contract file: reported separately
         found.append((ln, m.group(1)))
     return pre, found
 
